@@ -10,7 +10,7 @@ package keeper
 //@ spec DEat(s Store, a Addr, i Int) types.DE = dec(types.DE, s[types.DEStoreKey(a, i)])
 // queue well-formedness for one address: entries present exactly in [Head, Tail)
 //@ spec wfDE(s Store, a Addr) Bool = DEQ(s, a).Head <= DEQ(s, a).Tail
-//@      && (forall i :: inUint64(i) ==> (hasDE(s, a, i) <==> (DEQ(s, a).Head <= i && i < DEQ(s, a).Tail)))
+//@      && (forall i :: { hasDE(s, a, i) | types.DEStoreKey(a, i) } inUint64(i) ==> (hasDE(s, a, i) <==> (DEQ(s, a).Head <= i && i < DEQ(s, a).Tail)))
 
 // C05: DequeueDE returns the head of the queue, removes exactly that entry and advances Head;
 // everything else in the store is untouched (the postcondition gives the whole new store).
@@ -99,7 +99,7 @@ package keeper
 //@                    && old(DEQ(Store_tss, address).Tail) <= keyarg(types.DEStoreKey, q, 1)
 //@                    && keyarg(types.DEStoreKey, q, 1) < old(DEQ(Store_tss, address).Tail) + len(des))
 //@               ==> Store_tss[q] == old(Store_tss)[q])
-//@ loop 0: invariant forall q Bz :: Store_tss[q] ==
+//@ loop 0: invariant forall q Bz :: { Store_tss[q] } Store_tss[q] ==
 //@               ((iskey(types.DEStoreKey, q) && keyarg(types.DEStoreKey, q, 0) == address
 //@                 && deQueue.Tail <= keyarg(types.DEStoreKey, q, 1) && keyarg(types.DEStoreKey, q, 1) < deQueue.Tail + #i)
 //@                ? enc(des[keyarg(types.DEStoreKey, q, 1) - deQueue.Tail]) : old(Store_tss)[q])
